@@ -88,7 +88,7 @@ theorem abort_ok {s s' : Sys} {i : Nat} (h : step s (.abort i) = .ok s') :
     i < s.n ∧ inFinishBy s i = false ∧
     s' = (let x := s.insts i
           let s1 := setInst s i { x with pending := [], cache := dropOids x.cache (oidsOf x.pending) }
-          if committing s i then { s1 with infl := none } else s1) := by
+          if committing s i then dropInfl s1 else s1) := by
   simp only [step] at h
   split at h
   · next hg => exact ⟨hg.1, hg.2, (res_ok_inj h).symm⟩
@@ -125,12 +125,14 @@ theorem vote_ok {s s' : Sys} (h : step s .vote = .ok s') :
   · cases h
 
 theorem extAbort_ok {s s' : Sys} (h : step s .extAbort = .ok s') :
-    ∃ f, s.infl = some f ∧ f.phase ≠ .finishing ∧ s' = { s with infl := none } := by
+    ∃ f, s.infl = some f ∧ f.phase ≠ .finishing ∧ s' = { s with infl := none, next := f.tid } := by
   simp only [step] at h
   split at h
   · next f hf =>
     split at h
-    · next hp => exact ⟨f, hf, hp.2, (res_ok_inj h).symm⟩
+    · next hp =>
+      refine ⟨f, hf, hp.2, ?_⟩
+      rw [← res_ok_inj h]; simp only [dropInfl, hf]
     · cases h
   · cases h
 
